@@ -33,7 +33,7 @@ fn small_xlsx() -> Vec<u8> {
     b.sst = vec![xlsx::XText::plain("s0"), xlsx::XText { runs: vec![xlsx::XRun::R("r".into()), xlsx::XRun::R("t".into())], enc: xlsx::TextEnc::Entities }];
     b.styles = Some(xlsx::XStyles { num_fmts: vec![(164, "yyyy\\-mm".into())], cell_xfs: vec![0, 14, 164], cell_style_xfs: vec![0], omit_general_numfmt: false });
     let mut c1 = xlsx::XCell::new(1, 1, xlsx::XVal::Num("2".into())); c1.style = Some(1);
-    c1.formula = Some(xlsx::XFormula::SharedMaster { si: 0, rf: "B2:B3".into(), text: "A1+1".into() });
+    c1.formula = Some(xlsx::XFormula::SharedMaster { si: 0, rf: "B2:B3".into(), text: "A1+1&\"q\"&'S 2'!A1".into() });
     let mut c2 = xlsx::XCell::new(2, 1, xlsx::XVal::Num("3".into())); c2.formula = Some(xlsx::XFormula::SharedChild { si: 0 });
     let mut sh = xlsx::XSheet::new("S1", vec![xlsx::XCell::new(0, 0, xlsx::XVal::SharedStr(1)), c1, c2, xlsx::XCell::new(2, 2, xlsx::XVal::InlineStr(xlsx::XText::plain("i"))), xlsx::XCell::new(3, 0, xlsx::XVal::Bool(true)), xlsx::XCell::new(3, 1, xlsx::XVal::Err("#N/A".into()))]);
     sh.merges = vec!["A1:B1".into()];
